@@ -94,21 +94,36 @@ let str_off (o : z) =
   | -1 -> "end" | -2 -> "start" | _ -> hex_of_z o
 
 (* ---- l1 ---- *)
-(* the property on one fetch, evaluated on the REAL code's result "<msgs>;<err>;<final>" *)
+(* the property on one fetch, evaluated on the REAL code's result
+   "<msgs>;<err>;<final>;<Close result>;<connection closed>":
+   - the delivered messages are exactly the stored records in [fetch offset, Conn.offset after
+     Close) (so Conn.offset never passes a record that was not delivered), on EVERY case;
+   - when the connection was cut inside the announced message set (physcut): Batch.Close
+     returns an error and the library closes the connection (the cut is never presented as a
+     batch read to its end, the connection is not used again) *)
 let l1_prop fs (go : string) (physcut : bool) : string =
   match List.assoc_opt "log" fs with
   | None -> "na"
   | Some l ->
     (match String.split_on_char ';' go with
-     | [ms; _e; final] when final <> "start" && final <> "end" ->
+     | [ms; _e; final; close; closed] when final <> "start" && final <> "end" ->
        let log = parse_records l in
        let ms = if ms = "." then [] else List.map parse_msg (split_on ',' ms) in
        let off = z_of_hex (get fs "off") and fin = z_of_hex final in
-       if physcut then (if delivery_okb log off ms then "ok" else "VIOLATED")
-       else if fetch_okb log off ms fin then
-         (if int_of_z fin < int_of_z off then "REGRESS" else "ok")
-       else "VIOLATED"
+       if not (fetch_okb log off ms fin) then
+         (* delivered in order from the fetch offset, the connection closed with an error, but
+            Conn.offset is past a stored record that was not delivered *)
+         (if physcut && close <> "nil" && closed = "1" && delivery_okb log off ms && int_of_z fin >= int_of_z off
+          then "OFFSET-PASSES" else "VIOLATED")
+       else if int_of_z fin < int_of_z off then "REGRESS"
+       else if physcut && (close = "nil" || closed <> "1") then "UNREPORTED-CUT"
+       else "ok"
      | _ -> "VIOLATED")
+
+let str_close = function
+  | None -> "nil"
+  | Some EEOF -> "nil"
+  | Some e -> (match e with ERawEOF -> "fail" | _ -> str_err e)
 
 let eval_l1 fs =
   let blobs = parse_blobs (get fs "blobs") in
@@ -116,10 +131,10 @@ let eval_l1 fs =
   let declared = z_of_hex (get fs "declared") in
   let late = get fs "late" = "1" in
   let bytes = bytes_of_hex (get fs "bytes") in
-  match fetch_run (decomp_of blobs) big_fuel off hwm bytes declared late with
+  match fetch_close (decomp_of blobs) big_fuel off hwm bytes declared late with
   | None -> "panic"
-  | Some ((ms, e), final) ->
-    Printf.sprintf "%s;%s;%s" (str_msgs ms) (str_err e) (str_off final)
+  | Some ((((ms, e), final), cerr), closed) ->
+    Printf.sprintf "%s;%s;%s;%s;%s" (str_msgs ms) (str_err e) (str_off final) (str_close cerr) (if closed then "1" else "0")
 
 (* ---- enc ---- *)
 let eval_enc fs =
